@@ -168,7 +168,8 @@ def run(ctx):
                         hit = True
                         continue
                     stk_.extend(fn.succ(n))
-                with_match = hit and d0 in some_blocks
+                # (a log line may stand between the comparison and the `return Some(..)`: every way on from the exit builds the Some)
+                with_match = hit and (d0 in some_blocks or values.must_pass(fn, list(some_blocks), from_block=d0))
                 ctx.check("version-scan", "scan-left-only-when-exhausted-or-matched@%d" % s0, exhausted or with_match,
                           "the scan loop is left by exhaustion of the entries or with the match",
                           "the version scan can stop early (%s): a supported version later among the first four entries is not found" % (fmt(cond)[:120] if cond else "unconditional exit"),
